@@ -13,6 +13,12 @@ PROP_FILE = "C02_Eval"
 THEOREMS = ['c02_and_short_circuit', 'c02_or_short_circuit', 'c02_and_evaluated_operands', 'c02_or_evaluated_operands', 'c02_if', 'c02_binary_left_to_right', 'c02_eq_total', 'c02_arith_exact', 'c02_neg_exact', 'c02_arith_type_error', 'c02_in_entity', 'c02_in_entity_set', 'c02_in_set_with_nonentity', 'c02_has_absent_entity', 'c02_has_iff_access_succeeds', 'c02_is', 'c02_like']
 
 
+MANIFEST = {
+    "text": "Executable Gallina evaluator transcribed arm by arm from evaluator.rs; per-construct laws (short-circuiting, strict left-to-right operators, total ==, exact checked arithmetic, in/has/is/like) proved in Coq for all expressions, requests and stores (props/C02_Eval.v); tied to /repo by differential execution of the extracted model against Evaluator::interpret on type-directed random expressions sent as Cedar text and as JSON.",
+    "technique": "proof (Coq, structural induction) + correspondence by differential execution",
+}
+
+
 def make_case(w, e, slots=()):
     return {"world": w, "expr": e, "slots": list(slots)}
 
